@@ -108,3 +108,25 @@ def run_cli(argv, max_prints=None):
         else:
             del cli.print
     return buf.getvalue()
+
+
+def with_default_recursion_budget(fn):
+    """Call fn() with the interpreter's default recursion budget (1000 frames) available from
+    here on - the harness itself runs with a raised limit, which would hide a library routine
+    that has become recursive in the size of its input.  Never stricter than a user calling from
+    the top level.  Returns ("ok", value) or ("recursion", None)."""
+    import sys
+
+    depth = 0
+    frame = sys._getframe()  # pylint: disable=protected-access
+    while frame is not None:
+        depth += 1
+        frame = frame.f_back
+    old = sys.getrecursionlimit()
+    sys.setrecursionlimit(depth + 1000)
+    try:
+        return "ok", fn()
+    except RecursionError:
+        return "recursion", None
+    finally:
+        sys.setrecursionlimit(old)
